@@ -239,7 +239,9 @@ class Bin(V):
                 return '(' + s + ')'
             if isinstance(v, Un) and right is False and False:
                 return '(' + s + ')'
-            if isinstance(v, Lit) and v.value < 0:
+            if isinstance(v, Lit) and v.value < 0 and right:
+                # (on the left no parentheses are needed - unary minus binds tighter than every binary operator - and an operand
+                # that STARTS with a parenthesis is taken for the imm(reg) syntax by loads, stores and jalr)
                 return '(' + s + ')'
             return s
         sp = ' ' if st.pick(2, 'binsp') else ''
